@@ -92,13 +92,30 @@ def lasdata_layer(ck, n_cases):
         expect = v
         hist = []
         for _ in range(ck.rng.randrange(1, 8)):
-            op = ck.rng.choice(["flag", "flag", "points", "filter", "update", "wkt_vlr_add", "wkt_vlr_remove", "evlr_wkt"])
+            op = ck.rng.choice(["flag", "flag", "points", "filter", "update", "wkt_vlr_add", "wkt_vlr_remove", "evlr_wkt", "fork", "fork"])
             if op == "flag":
                 flag, bit = ck.rng.choice(FLAGS)
                 b = ck.rng.randrange(2)
                 setattr(las.header.global_encoding, flag, GpsTimeType(b) if flag == "gps_time_type" else bool(b))
                 expect = (expect & ~(1 << bit)) | (b << bit)
                 hist.append(f"{flag}={b}")
+            elif op == "fork":
+                # an object derived from this one (copy of the header, filtered LasData, converted LasData) gets flags of its own
+                import copy
+                how = ck.rng.choice(["deepcopy_header", "mask", "convert"])
+                if how == "deepcopy_header":
+                    other_h = copy.deepcopy(las.header)
+                elif how == "mask":
+                    other_h = las[np.ones(len(las.points), dtype=bool)].header
+                else:
+                    other_h = laspy.convert(las, point_format_id=las.header.point_format.id).header
+                flag, bit = ck.rng.choice(FLAGS)
+                cur = (expect >> bit) & 1
+                setattr(other_h.global_encoding, flag, GpsTimeType(1 - cur) if flag == "gps_time_type" else bool(1 - cur))
+                hist.append(f"{how}: derived.{flag}={1 - cur}")
+                if other_h.global_encoding.value != (expect ^ (1 << bit)):
+                    ck.fail(f"LAS 1.{minor}: the derived object ({how}) reads {other_h.global_encoding.value} after {flag}={1 - cur}, expected {expect ^ (1 << bit)}",
+                            {"kind": "lasdata", "minor": minor, "fmt": fmt, "value": v, "history": hist[:]})
             elif op == "points":
                 las.points = las.points[np.arange(len(las.points)) % 2 == 0] if len(las.points) > 1 else las.points
                 hist.append("points = points[mask]")
@@ -166,6 +183,22 @@ def run(ck):
                     if n_fail <= 20:
                         ck.fail(msg, {"kind": "set", "flag": flag, "value": v, "target": b})
     ck.count("oracle_set_cases", 65536 * 10)
+    # values that are not booleans: a flag takes the truth value of what it is given (2, 16, numpy integers ...)
+    import numpy as _np
+    from laspy.header import GlobalEncoding as _GE
+    for flag, bit in FLAGS:
+        if flag == "gps_time_type":
+            continue
+        for val in (2, 4, 16, 0x8000, _np.int64(2), _np.uint8(4), _np.uint16(0x8000), _np.bool_(True), _np.bool_(False), 0, _np.int8(0), 3, -1):
+            for v in (0, 0xFFFF, 0x8018, ck.rng.randrange(65536)):
+                g = _GE(v)
+                setattr(g, flag, val)
+                want = (v & ~(1 << bit)) | (int(bool(val)) << bit)
+                ck.case(("set_truthy", flag, repr(val), v), nontrivial=True)
+                if g.value != want:
+                    ck.fail(f"{flag} = {val!r} (truth value {bool(val)}) on field {v:#06x} gives {g.value:#06x}, expected {want:#06x}",
+                            {"kind": "set_truthy", "flag": flag, "value": v, "assigned": repr(val)})
+    ck.count("oracle_truthy_values", 4 * 13 * 4)
     ck.sample({"op": "GlobalEncoding(0x1234).wkt = False", "result": impl_set("wkt", 0x1234, 0)})
 
     # ---- translation validation / correspondence: generated Lean functions vs the class
